@@ -297,6 +297,14 @@ static void decode(const json& v)
                     "entries reached by iteration do not start where the image puts them", cs);
             else
                 rep.ok("group-iter");
+            err = attempt([&] { got = go.entry_addrs_idx(p, size, ip); });
+            if(!err.empty())
+                bad(c, "addr", "group-index", key, err, cs);
+            else if(got != exp)
+                bad(c, "addr", "group-index", key,
+                    "entries reached through operator[] do not start where the image puts them", cs);
+            else
+                rep.ok("group-index");
         }
         err = attempt([&] { sz = go.size_bytes(p, size, ip); });
         if(!err.empty())
